@@ -1,2 +1,5 @@
 import IncrVerif.Basic.AssocMap
 import IncrVerif.MapOps.SymDiff
+import IncrVerif.MapOps.SymDiffRef
+import IncrVerif.Proofs.SymDiff
+import IncrVerif.Props.C18
